@@ -23,7 +23,8 @@ def run(ctx):
     rng = random.Random(ctx.seed)
     exe = harness.rt(False)
     U = sm.Universe(exe)
-    roots = [i for i, t in enumerate(U.types)]
+    # Up4 / H4 leave the scratch tree under the ordinary base directories: they belong to C17's shallow-directory histories
+    roots = [i for i, t in enumerate(U.types) if t["ident"] not in ("Up4", "H4")]
     cases = []
     for i in roots:
         for env in ENVS:
